@@ -171,6 +171,9 @@ class MetaMolecule(nx.Graph):
         # we need to do some bookkeeping for the resids
         for idx, node in enumerate(new_meta_graph.nodes):
             new_meta_graph.nodes[node]["resid"] = idx
+            # residues the split did not touch keep the flags every residue starts with
+            new_meta_graph.nodes[node].setdefault("build", True)
+            new_meta_graph.nodes[node].setdefault("backmap", True)
             for atom in new_meta_graph.nodes[node]["graph"]:
                 self.molecule.nodes[atom]["resid"] = idx
 
